@@ -31,6 +31,7 @@ def run(ctx) -> None:
     rep.rule("C04.R2", "exhaustion of the bound raises ExecutionError(InfiniteLoopError(bound), state) while nodes are still ready", floor=2)
     rep.rule("C04.R3", "staleness comparator: equal->fresh, greater->stale; versions only ever grow by one; accumulator rule consulted", floor=4)
     rep.rule("C04.R4", "an END decision is never cleared as stale", floor=1)
+    rep.rule("C04.R5", "a ready gate holds its targets back even when it is itself deferred behind the producer of its signal", floor=1)
 
     sss = set(superstep_funcs(db))
     impls = execute_impl_funcs(db)
@@ -195,6 +196,13 @@ def run(ctx) -> None:
 
     # ---- R4 ----------------------------------------------------------------------
     check_end_never_cleared(ctx, "C04.R4")
+    _r5(ctx)
+
+
+def _r5(ctx) -> None:
+    from .c17 import check_block_before_deferral
+
+    check_block_before_deferral(ctx, "C04.R5")
 
 
 def check_end_never_cleared(ctx, rule: str) -> None:
